@@ -121,7 +121,8 @@ def make_sketch(P, name, sides=False):
     if name in ("QuarterSplineDisk", "HalfSplineDisk", "SplineDisk"):
         return getattr(cb, name)(P.p(o), P.p(c1), P.p(c2), s1, s2)
     if name in ("QuarterSplineRing", "HalfSplineRing", "SplineRing"):
-        return getattr(cb, name)(P.p(o), P.p(c1), P.p(c2), s1, s2, P.l(0.2), P.l(0.2))
+        # unequal widths on the two axes (the quarters of a half / full ring must agree on both)
+        return getattr(cb, name)(P.p(o), P.p(c1), P.p(c2), s1, s2, P.l(0.2), P.l(0.3))
     raise KeyError(name)
 
 
@@ -297,6 +298,8 @@ def b_revolved_ring(P, n=8):
     cb = _cb()
     face = cb.Face([P.p([0.1, 0.5, 0]), P.p([0.9, 0.45, 0]), P.p([0.8, 1.0, 0]), P.p([0.2, 0.9, 0])])
     sh = cb.RevolvedRing(P.p([0, 0, 0]), P.p([1, 0, 0]), face, n_segments=n)
+    # the cross-section handed in is the user's own object: used again (moved away for a next ring), it leaves this ring alone
+    face.translate([float(x) for x in P.v([0.0, 0.0, 3.0])])
     chop_round(sh)
     return Built([sh], expect_nv=4 * n)
 
